@@ -469,7 +469,8 @@ Proof.
   simpl in H. apply andb_true_iff in H as [Ho Hr].
   destruct (exec_op nc o s) as [ok1 s1] eqn:E1.
   assert (ok1 = true) as ->.
-  { destruct o; simpl in Ho; try discriminate; simpl in E1; inversion E1; reflexivity. }
+  { destruct o; simpl in Ho; try discriminate; simpl in E1;
+      try (match type of E1 with (if ?b then _ else _) = _ => destruct b end); inversion E1; reflexivity. }
   simpl. apply IH; exact Hr.
 Qed.
 
